@@ -35,6 +35,7 @@ class Ctx:
         self.exhaustive = None
         self.rule = ""
         self.checker_cmds = []
+        self.selftest = tier == "thorough" or os.environ.get("VERIF_SELFTEST") == "1"
 
     def quick(self):
         return self.tier == "quick"
@@ -92,6 +93,30 @@ def judge_cases(ctx, cases, name, own_prefixes, sig_fn=None, nontrivial_fn=None,
     if not cases:
         return {}
     res = tlc.run_cases(cases, "%s-%s-%s" % (ctx.prop, ctx.tier, name), module=module, env_extra=env_extra)
+    # ---- non-vacuity: corrupted copies of a few real cases must be rejected by the clause that binds the corrupted field
+    probes = []
+    if ctx.selftest:
+        from . import selftest
+        seen_labels = {}
+        for c in cases:
+            orig = res["results"].get(c["id"], [])
+            for label, clause, cc in selftest.corruptions(c):
+                if not clause.startswith(own_prefixes) or seen_labels.get(label, 0) >= 3:
+                    continue
+                if not any(cl.startswith(clause) and v == "ok" for cl, v in orig):
+                    continue          # corrupt only what the spec accepted: the probe asks "would this clause have noticed?"
+                seen_labels[label] = seen_labels.get(label, 0) + 1
+                cc["id"] = "ST%d" % len(probes)
+                probes.append((label, clause, cc))
+        if probes:
+            pres = tlc.run_cases([p[2] for p in probes], "%s-%s-%s-selftest" % (ctx.prop, ctx.tier, name), module=module, env_extra=env_extra)
+            for label, clause, cc in probes:
+                verdicts = pres["results"].get(cc["id"], [])
+                hit = any(cl.startswith(clause) and v == "fail" for cl, v in verdicts)
+                st = ctx.extra.setdefault("selftest", {}).setdefault(label, {"clause": clause, "rejected": 0, "accepted": 0})
+                st["rejected" if hit else "accepted"] += 1
+                if not hit:
+                    ctx.machinery.append("self-test: corruption '%s' was not rejected by %s (verdicts %s)" % (label, clause, verdicts[:6]))
     ctx.add_model(res["transitions"], res["states"])
     ctx.checker_cmds.append("tlc %s.tla over %d logged cases (%s)" % (module, len(cases), name))
     by_id = {c["id"]: c for c in cases}
